@@ -181,6 +181,9 @@ public:
         s.ttl_cfg = cfg.ttl_ms;
         return s;
     }
+    // candidate-set cap: bounded in *bytes* (a state is ~80 bytes per key), so that hundreds of keys with a
+    // blown-up candidate set make the case inconclusive quickly instead of grinding
+    size_t cand_cap() const { return std::max<size_t>(64, std::min<size_t>(MAX_CANDS, 200000 / (size_t)std::max(1, cfg.universe))); }
     bool ttl() const { return kind_is_ttl(cfg.kind); }
     bool ttllru() const { return kind_is_ttllru(cfg.kind); }
     bool utm() const { return cfg.kind == UTMAP || cfg.kind == UTSET; }
@@ -500,7 +503,7 @@ private:
             nxt.swap(ded);
         }
         cur.swap(nxt);
-        return cur.size() <= MAX_CANDS;
+        return cur.size() <= cand_cap();
     }
     static bool same_er(const std::vector<ElemRes>& a, const std::vector<ElemRes>& b)
     {
